@@ -19,7 +19,9 @@ import (
 	"golang.org/x/tools/go/ssa/ssautil"
 )
 
-const repoDir = "/repo"
+// repoDir is the tree under check: /repo, or $VERIF_REPO (development only: lets a second copy of the
+// repository be checked while /repo itself is busy).
+var repoDir = "/repo"
 
 // verifDir is where harnesses, known findings, replays and evidence live: $VERIF_DIR if set, else the
 // parent of the directory holding this executable when that has a harness/ directory (so that a copy or
@@ -27,6 +29,9 @@ const repoDir = "/repo"
 var verifDir = "/verif"
 
 func locateVerifDir() {
+	if d := os.Getenv("VERIF_REPO"); d != "" {
+		repoDir = d
+	}
 	if d := os.Getenv("VERIF_DIR"); d != "" {
 		verifDir = d
 		return
